@@ -98,7 +98,7 @@ def raw_ids(canon, z):
 
 class LockStep:
     def __init__(self, peers, zs, cfgs, ops, qbound=2, submits=0, guards=-1, n_menu=0, max_exec=200000, deadline=None,
-                 compare_ids=False, act_in_trace=True, observe=None, labels=None):
+                 compare_ids=False, act_in_trace=True, observe=None, labels=None, faults=False):
         self.peers = peers
         self.zs = zs              # per peer: description with that family's ids
         self.cfgs = cfgs
@@ -112,6 +112,7 @@ class LockStep:
         self.compare_ids = compare_ids
         self.act_in_trace = act_in_trace
         self.observe = observe
+        self.faults = faults      # after an injected exception the entry/exit ledger is legitimately unbalanced: keep exploring
         self.labels = labels or cfgs     # names used in messages (cfgs drive the normalisation)
         self.stats = collections.Counter()
         self.findings = []
@@ -206,7 +207,7 @@ class LockStep:
                     k = tuple(r['canon'] for r in results)
                     if k not in seen:
                         seen.add(k)
-                        if not any(r['ledger'] != '-' for r in results):
+                        if self.faults or not any(r['ledger'] != '-' for r in results):
                             frontier.append((h2, results))
                         else:
                             self.stats['pruned_ledger'] += 1
